@@ -103,6 +103,10 @@ def op_table(D: int) -> Dict[str, Tuple[Callable, Callable]]:
         "append_self": (lambda x, e: x.append(x) if hasattr(x, "append") else torch.cat([x, x]), ident),
         "append_other": (lambda x, e: x.append(e["other"](x)) if hasattr(x, "append") else torch.cat([x, e["other"](x)]), ident),
         "ellipsis_mid": (lambda x, e: x[1:, ..., :], ident),
+        "slice_1_3_chan_0_1": (lambda x, e: x[1:3, 0:1], ident),
+        "list_20_chan_0_1": (lambda x, e: x[[2, 0], 0:1], ident),
+        "mask_101_chan_0_1": (lambda x, e: x[torch.tensor([True, False, True]), :1], ident),
+        "slice_step2_chan_ellipsis": (lambda x, e: x[::2, :1, ...], ident),
         "cat_self": (lambda x, e: torch.cat([x, x]), ident),
         "cat_self_kwdim": (lambda x, e: torch.cat([x, x], dim=0), ident),
         "cat_other": (lambda x, e: torch.cat([x, e["other"](x)]), ident),
